@@ -105,8 +105,24 @@ func printKeys(r *explore.Run) {
 	}
 }
 
+// validExtra: further families of valid programs contributed by other files of this package (appended in
+// init functions); they are presented to every check that consumes quickFamilies (C02, C08, C09 and the
+// semantic checks C01/C03/C04/C05).
+var validExtra []func(thorough bool) *wgen.Family
+
+// extraFamilyByName: replay support for contributed families (name -> constructor).
+var extraFamilyByName = map[string]func() *wgen.Family{}
+
 // families used by most program-space checks.
 func quickFamilies(r *explore.Run) []*wgen.Family {
+	fams := baseFamilies(r)
+	for _, f := range validExtra {
+		fams = append(fams, f(r.Thorough()))
+	}
+	return fams
+}
+
+func baseFamilies(r *explore.Run) []*wgen.Family {
 	if r.Thorough() {
 		return []*wgen.Family{wgen.F1(), wgen.F2(3, false), wgen.F2(5, true), wgen.F2L(3, false), wgen.F2L(4, true), wgen.F4c(true)}
 	}
@@ -133,6 +149,9 @@ func (p *prog) replay() map[string]any {
 var perProgram = map[string]func(r *explore.Run, p *prog){}
 
 func familyByName(name string) *wgen.Family {
+	if f := extraFamilyByName[name]; f != nil {
+		return f()
+	}
 	if name == "F1" {
 		return wgen.F1()
 	}
